@@ -34,16 +34,22 @@ var clientKinds = []string{exported.Tendermint, exported.TSS, exported.BSC, expo
 // ---------------------------------------------------------------------------------------------
 // heights
 
-func (g *tagger) height(name string, normal clienttypes.Height, pct int) clienttypes.Height {
+// height draws a height; zeroOK says that the validation in this position accepts a zero revision height.
+func (g *tagger) height(name string, normal clienttypes.Height, pct int, zeroOK bool) clienttypes.Height {
 	if !g.edge(name, pct) {
 		return normal
 	}
 	hs := []clienttypes.Height{
-		{}, {RevisionNumber: 0, RevisionHeight: 1}, {RevisionNumber: 1, RevisionHeight: 0}, {RevisionNumber: 0, RevisionHeight: 47},
+		{RevisionNumber: 0, RevisionHeight: 1}, {RevisionNumber: 0, RevisionHeight: 47},
 		{RevisionNumber: 47, RevisionHeight: 12079}, {RevisionNumber: ^uint64(0), RevisionHeight: ^uint64(0)},
 		{RevisionNumber: 0, RevisionHeight: ^uint64(0)}, {RevisionNumber: 0, RevisionHeight: 1 << 63}, {RevisionNumber: 9000, RevisionHeight: 2},
+		{}, {RevisionNumber: 1, RevisionHeight: 0},
 	}
-	h := hs[g.pick(name+".edge", len(hs))]
+	nRej := 2
+	if zeroOK {
+		nRej = 0
+	}
+	h := hs[g.pick2(name+".edge", len(hs)-nRej, nRej)]
 	g.tag(fmt.Sprintf("%s=%s-%s", name, u64class(h.RevisionNumber), u64class(h.RevisionHeight)))
 	return h
 }
@@ -64,7 +70,7 @@ func (g *tagger) tmClientState() *tmtypes.ClientState {
 	}
 	if g.edge("tm.chainId", 12) {
 		ids := []string{"x", "teleport_9000-1", strings.Repeat("c", 300), "chain-18446744073709551615", "chain-99999999999999999999", " a ", "", "  "}
-		i := g.pick("tm.chainId.edge", len(ids))
+		i := g.pick2("tm.chainId.edge", 6, 2)
 		cs.ChainId = ids[i]
 		g.tag("tm.chainId=" + []string{"1char", "native", "long", "maxrev", "overflowrev", "spaces", "empty", "blank"}[i])
 	}
@@ -72,7 +78,7 @@ func (g *tagger) tmClientState() *tmtypes.ClientState {
 		fr := []tmtypes.Fraction{{Numerator: 1, Denominator: 3}, {Numerator: 1, Denominator: 1}, {Numerator: 2, Denominator: 3},
 			{Numerator: ^uint64(0), Denominator: ^uint64(0)}, {Numerator: 1 << 62, Denominator: 1 << 63}, {Numerator: 6148914691236517206, Denominator: 1},
 			{Numerator: 0, Denominator: 0}, {Numerator: 1, Denominator: 0}, {Numerator: 0, Denominator: 1}, {Numerator: 1, Denominator: 4}, {Numerator: 2, Denominator: 1}}
-		i := g.pick("tm.trustLevel.edge", len(fr))
+		i := g.pick2("tm.trustLevel.edge", 5, 6)
 		cs.TrustLevel = fr[i]
 		g.tag(fmt.Sprintf("tm.trustLevel=%s/%s", u64class(fr[i].Numerator), u64class(fr[i].Denominator)))
 	}
@@ -83,19 +89,19 @@ func (g *tagger) tmClientState() *tmtypes.ClientState {
 		}
 		ps := []pp{{1, 2, "1ns<2ns"}, {-1, 1, "neg<1"}, {-1 << 63, -1, "min<neg"}, {1<<63 - 2, 1<<63 - 1, "max-1<max"}, {-5, 1<<63 - 1, "neg<max"},
 			{0, 1, "trust0"}, {1, 0, "unbond0"}, {2, 1, "trust>unbond"}, {5, 5, "equal"}}
-		p := ps[g.pick("tm.periods.edge", len(ps))]
+		p := ps[g.pick2("tm.periods.edge", 5, 4)]
 		cs.TrustingPeriod, cs.UnbondingPeriod = p.t, p.u
 		g.tag("tm.periods=" + p.n)
 	}
 	if g.edge("tm.drift", 10) {
 		ds := []time.Duration{1, -1, 1<<63 - 1, -1 << 63, 0}
-		i := g.pick("tm.drift.edge", len(ds))
+		i := g.pick2("tm.drift.edge", 4, 1)
 		cs.MaxClockDrift = ds[i]
 		g.tag("tm.drift=" + []string{"1ns", "neg", "max", "min", "0"}[i])
 	}
-	cs.LatestHeight = g.height("tm.latestHeight", cs.LatestHeight, 15)
+	cs.LatestHeight = g.height("tm.latestHeight", cs.LatestHeight, 15, false)
 	if g.edge("tm.proofSpecs", 15) {
-		switch g.pick("tm.proofSpecs.edge", 6) {
+		switch g.pick2("tm.proofSpecs.edge", 4, 2) {
 		case 0:
 			cs.ProofSpecs = []*ics23.ProofSpec{{}}
 			g.tag("tm.proofSpecs=emptySpec")
@@ -128,12 +134,16 @@ func (g *tagger) tmClientState() *tmtypes.ClientState {
 }
 
 func (g *tagger) tmConsState() *tmtypes.ConsensusState {
+	pct := 15
+	if g.rejPct < 15 {
+		pct = 4 // genesis validation runs ConsensusState.ValidateBasic (proposal validation does not)
+	}
 	cons := &tmtypes.ConsensusState{
 		Timestamp:          kit.Epoch.Add(time.Duration(rapid.IntRange(-3600, 3600).Draw(g.t, "tmcons.dt")) * time.Second),
-		Root:               g.edgeBytes("tmcons.root", 32, 15),
-		NextValidatorsHash: g.edgeBytes("tmcons.nextVals", 32, 15),
+		Root:               g.edgeBytes("tmcons.root", 32, pct),
+		NextValidatorsHash: g.edgeBytes("tmcons.nextVals", 32, pct),
 	}
-	if g.edge("tmcons.time", 15) {
+	if g.edge("tmcons.time", pct) {
 		ts := []time.Time{time.Unix(0, 0).UTC(), time.Unix(1, 0).UTC(), time.Date(1, 1, 1, 0, 0, 0, 0, time.UTC), time.Date(9999, 12, 31, 23, 59, 59, 999999999, time.UTC),
 			time.Unix(-1, 0).UTC(), {}, time.Date(10000, 1, 1, 0, 0, 0, 0, time.UTC)}
 		i := g.pick("tmcons.time.edge", len(ts))
@@ -210,7 +220,7 @@ func (g *tagger) bscClientState() *bsctypes.ClientState {
 		h.Nonce = g.edgeBytes("bsc.nonce", 8, 100)
 	}
 	if g.edge("bsc.mixDigest", 8) {
-		switch g.pick("bsc.mixDigest.edge", 3) {
+		switch g.pick2("bsc.mixDigest.edge", 2, 1) {
 		case 0:
 			h.MixDigest = nil
 			g.tag("bsc.mixDigest=nil")
@@ -226,10 +236,14 @@ func (g *tagger) bscClientState() *bsctypes.ClientState {
 		h.UncleHash = g.edgeBytes("bsc.uncleHash", 32, 100)
 	}
 	if g.edge("bsc.difficulty", 15) {
-		ds := [][]byte{nil, {0}, {1}, {0, 0, 0, 0, 0, 0, 0, 0, 2}, append([]byte{1}, make([]byte, 8)...), append([]byte{0xff}, make([]byte, 40)...)}
-		i := g.pick("bsc.difficulty.edge", len(ds))
+		ds := [][]byte{{1}, {0, 0, 0, 0, 0, 0, 0, 0, 2}, nil, {0}, append([]byte{1}, make([]byte, 8)...), append([]byte{0xff}, make([]byte, 40)...)}
+		nAcc, nRej := 2, 4 // a difficulty whose low 64 bits are zero is rejected above block 0
+		if number == 0 {
+			nAcc, nRej = 6, 0
+		}
+		i := g.pick2("bsc.difficulty.edge", nAcc, nRej)
 		h.Difficulty = ds[i]
-		g.tag("bsc.difficulty=" + []string{"nil", "0", "1", "padded2", "2^64", "41bytes"}[i])
+		g.tag("bsc.difficulty=" + []string{"1", "padded2", "nil", "0", "2^64", "41bytes"}[i])
 	}
 	if (len(h.Bloom) > 256 || len(h.Nonce) > 8) && chance(g.t, "bsc.oversizeAtGenesisBlock", 70) {
 		// constructive: the header conversion (and with it the size check) only runs above block 0
@@ -341,7 +355,7 @@ func (g *tagger) bscClientState() *bsctypes.ClientState {
 func (g *tagger) bscConsState() *bsctypes.ConsensusState {
 	return &bsctypes.ConsensusState{
 		Timestamp: g.edgeU64("bsccons.timestamp", uint64(kit.Epoch.Unix()), 20),
-		Height:    g.height("bsccons.height", clienttypes.NewHeight(0, 200), 15),
+		Height:    g.height("bsccons.height", clienttypes.NewHeight(0, 200), 15, true),
 		Root:      g.edgeBytes("bsccons.root", 32, 15),
 	}
 }
@@ -368,22 +382,26 @@ func (g *tagger) ethClientState() *ethtypes.ClientState {
 		Nonce:       g.edgeU64("eth.nonce", 7, 8),
 		BaseFee:     g.edgeBytes("eth.baseFee", 4, 15),
 	}
-	h.Height = g.height("eth.height", h.Height, 30)
+	h.Height = g.height("eth.height", h.Height, 30, true)
 	if g.edge("eth.gas", 15) {
 		type gg struct {
 			l, u uint64
 			n    string
 		}
 		gs := []gg{{0, 0, "0/0"}, {1<<63 - 1, 1<<63 - 1, "cap/cap"}, {1<<63 - 1, 0, "cap/0"}, {1 << 63, 0, "cap+1"}, {5, 6, "used>limit"}, {^uint64(0), ^uint64(0), "max/max"}}
-		x := gs[g.pick("eth.gas.edge", len(gs))]
+		x := gs[g.pick2("eth.gas.edge", 3, 3)]
 		h.GasLimit, h.GasUsed = x.l, x.u
 		g.tag("eth.gas=" + x.n)
 	}
 	if g.edge("eth.difficulty", 15) {
-		ds := [][]byte{nil, {0}, {1}, append([]byte{1}, make([]byte, 8)...), append([]byte{0xff}, make([]byte, 40)...), make([]byte, 33)}
-		i := g.pick("eth.difficulty.edge", len(ds))
+		ds := [][]byte{{1}, {0, 0, 0, 0, 0, 0, 0, 0, 2}, nil, {0}, append([]byte{1}, make([]byte, 8)...), append([]byte{0xff}, make([]byte, 40)...), make([]byte, 33)}
+		nAcc, nRej := 2, 5 // a difficulty whose low 64 bits are zero is rejected above block 0
+		if h.Height.RevisionHeight == 0 {
+			nAcc, nRej = 7, 0
+		}
+		i := g.pick2("eth.difficulty.edge", nAcc, nRej)
 		h.Difficulty = ds[i]
-		g.tag("eth.difficulty=" + []string{"nil", "0", "1", "2^64", "41bytes", "33zeros"}[i])
+		g.tag("eth.difficulty=" + []string{"1", "padded2", "nil", "0", "2^64", "41bytes", "33zeros"}[i])
 	}
 	if g.edge("eth.bloom", 20) {
 		h.Bloom = g.edgeBytes("eth.bloom", 256, 100)
@@ -409,7 +427,7 @@ func (g *tagger) ethClientState() *ethtypes.ClientState {
 func (g *tagger) ethConsState() *ethtypes.ConsensusState {
 	return &ethtypes.ConsensusState{
 		Timestamp: g.edgeU64("ethcons.timestamp", uint64(kit.Epoch.Unix()), 20),
-		Height:    g.height("ethcons.height", clienttypes.NewHeight(0, 1000), 15),
+		Height:    g.height("ethcons.height", clienttypes.NewHeight(0, 1000), 15, true),
 		Root:      g.edgeBytes("ethcons.root", 32, 15),
 	}
 }
@@ -426,7 +444,7 @@ func (g *tagger) bech32Address(name string, pct int) string {
 		return valid
 	}
 	prefix := sdk.GetConfig().GetBech32AccountAddrPrefix()
-	switch g.pick(name+".edge", 8) {
+	switch g.pick2(name+".edge", 4, 4) {
 	case 0:
 		g.tag(name + "=uppercase")
 		return strings.ToUpper(valid)
